@@ -165,11 +165,13 @@ NothingAfterCancel(sv) ==
   \A k \in DOMAIN ParsedAt(sv) : LET seg == Segment(sv, k) IN
      \A j \in DOMAIN seg : seg[j].e \in {"fdrop", "hdrop"} => \A m \in (j + 1)..Len(seg) : FrameOf(seg[m]) # FrameOf(seg[j])
 \* P3: a request whose handling outlives a fang deadline is answered 500 "timeout" (unless the session ended first)
+\* (a fired timer always drops at least one frame: the part inside a Timeout fang starts with a fang or with the handler)
+Cancelled(seg) == Has(seg, "fire") \/ Has(seg, "hdrop") \/ Has(seg, "fdrop")
 OutlivedAnswered500(sv, cl) ==
   \A k \in DOMAIN ParsedAt(sv) : LET seg == Segment(sv, k) IN
      Has(seg, "sent") => /\ k \in DOMAIN Resps(cl)
-                         /\ ((Has(seg, "fire") \/ Has(seg, "hdrop")) <=> (Resps(cl)[k].a = 500 /\ Resps(cl)[k].b = 0))
-                         /\ (~(Has(seg, "fire") \/ Has(seg, "hdrop")) <=> (Resps(cl)[k].a = 200 /\ Resps(cl)[k].b = k))
+                         /\ (Cancelled(seg) <=> (Resps(cl)[k].a = 500 /\ Resps(cl)[k].b = 0))
+                         /\ (~Cancelled(seg) <=> (Resps(cl)[k].a = 200 /\ Resps(cl)[k].b = k))
 \* P4: no response byte after the session deadline; P6: the session does not outlive it (tol: polling granularity / measurement tolerance)
 NoByteAfterDeadline(cl, S, tol) == \A j \in DOMAIN cl : cl[j].t =< S + tol
 EndsByDeadline(sv, S, tol) == \A j \in DOMAIN sv : sv[j].t =< S + tol
